@@ -395,6 +395,78 @@ fn do_table(name: &str, code: u8) -> String {
     r.unwrap_or_else(|_| "panic".to_string())
 }
 
+/// `X <mode> <type> <idx> <key> <off> <w> <lo> <hi>`: exhaustive sweep of one scaled field through the real
+/// `messages::parse`: every raw value in lo..hi is written at bit `off` (width `w`) of a fixed
+/// background payload; answers `ok <n> <absent> <fnv1a-64>` over (presence, f32 bits) of field `key`.
+fn do_sweep(t: u8, key: &str, off: usize, w: usize, lo: u64, hi: u64) -> String {
+    let nbytes = match t { 5 => 53, 19 => 39, 21 => 34, 27 => 12, 17 => 15, _ => 21 };
+    let mut buf = vec![0u8; nbytes];
+    for (i, b) in buf.iter_mut().enumerate() {
+        *b = if i == 0 { t << 2 } else { ((i * 37 % 256) as u8) ^ 0x5a };
+    }
+    if off + w > 8 * nbytes || w > 32 {
+        return "bad-op".to_string();
+    }
+    let mut h: u64 = 14695981039346656037;
+    let mut absent = 0u64;
+    let mut mix = |h: &mut u64, b: u64| { *h = (*h ^ b).wrapping_mul(1099511628211); };
+    for raw in lo..hi {
+        for i in 0..w {
+            let bit = ((raw >> (w - 1 - i)) & 1) as u8;
+            let p = off + i;
+            if bit == 1 { buf[p / 8] |= 0x80 >> (p % 8); } else { buf[p / 8] &= !(0x80 >> (p % 8)); }
+        }
+        let got: Result<Option<f32>, ()> = match catch_unwind(|| messages::parse(&buf)) {
+            Ok(Ok(m)) => match (&m, key) {
+                (AisMessage::PositionReport(r), "longitude") => Ok(r.longitude),
+                (AisMessage::PositionReport(r), "latitude") => Ok(r.latitude),
+                (AisMessage::PositionReport(r), "speed_over_ground") => Ok(r.speed_over_ground),
+                (AisMessage::PositionReport(r), "course_over_ground") => Ok(r.course_over_ground),
+                (AisMessage::BaseStationReport(r), "longitude") => Ok(r.longitude),
+                (AisMessage::BaseStationReport(r), "latitude") => Ok(r.latitude),
+                (AisMessage::UtcDateResponse(r), "longitude") => Ok(r.longitude),
+                (AisMessage::UtcDateResponse(r), "latitude") => Ok(r.latitude),
+                (AisMessage::StaticAndVoyageRelatedData(r), "draught") => Ok(Some(r.draught)),
+                (AisMessage::StandardAircraftPositionReport(r), "longitude") => Ok(r.longitude),
+                (AisMessage::StandardAircraftPositionReport(r), "latitude") => Ok(r.latitude),
+                (AisMessage::StandardAircraftPositionReport(r), "speed_over_ground") => Ok(r.speed_over_ground),
+                (AisMessage::StandardAircraftPositionReport(r), "course_over_ground") => Ok(r.course_over_ground),
+                (AisMessage::DgnssBroadcastBinaryMessage(r), "longitude") => Ok(r.longitude),
+                (AisMessage::DgnssBroadcastBinaryMessage(r), "latitude") => Ok(r.latitude),
+                (AisMessage::StandardClassBPositionReport(r), "longitude") => Ok(r.longitude),
+                (AisMessage::StandardClassBPositionReport(r), "latitude") => Ok(r.latitude),
+                (AisMessage::StandardClassBPositionReport(r), "speed_over_ground") => Ok(r.speed_over_ground),
+                (AisMessage::StandardClassBPositionReport(r), "course_over_ground") => Ok(r.course_over_ground),
+                (AisMessage::ExtendedClassBPositionReport(r), "longitude") => Ok(r.longitude),
+                (AisMessage::ExtendedClassBPositionReport(r), "latitude") => Ok(r.latitude),
+                (AisMessage::ExtendedClassBPositionReport(r), "speed_over_ground") => Ok(r.speed_over_ground),
+                (AisMessage::ExtendedClassBPositionReport(r), "course_over_ground") => Ok(r.course_over_ground),
+                (AisMessage::AidToNavigationReport(r), "longitude") => Ok(r.longitude),
+                (AisMessage::AidToNavigationReport(r), "latitude") => Ok(r.latitude),
+                (AisMessage::LongRangeAisBroadcastMessage(r), "longitude") => Ok(r.longitude),
+                (AisMessage::LongRangeAisBroadcastMessage(r), "latitude") => Ok(r.latitude),
+                (AisMessage::LongRangeAisBroadcastMessage(r), "speed_over_ground") => Ok(r.speed_over_ground),
+                (AisMessage::LongRangeAisBroadcastMessage(r), "course_over_ground") => Ok(r.course_over_ground),
+                _ => Err(()),
+            },
+            _ => Err(()),
+        };
+        match got {
+            Ok(Some(x)) => {
+                let bits = x.to_bits() as u64;
+                mix(&mut h, 1);
+                mix(&mut h, bits & 255);
+                mix(&mut h, (bits >> 8) & 255);
+                mix(&mut h, (bits >> 16) & 255);
+                mix(&mut h, (bits >> 24) & 255);
+            }
+            Ok(None) => { mix(&mut h, 0); absent += 1; }
+            Err(()) => mix(&mut h, 2),
+        }
+    }
+    format!("ok {} {} {}", hi.saturating_sub(lo), absent, h)
+}
+
 fn main() {
     std::panic::set_hook(Box::new(|_| {}));
     let stdin = io::stdin();
@@ -436,6 +508,10 @@ fn main() {
                     format!("ok {} {}", recs.len(), parts.join(","))
                 }
                 None => "bad-op".to_string(),
+            },
+            ["X", _mode, t, _idx, key, off, w, lo, hi] => match (t.parse::<u8>(), off.parse::<usize>(), w.parse::<usize>(), lo.parse::<u64>(), hi.parse::<u64>()) {
+                (Ok(t), Ok(off), Ok(w), Ok(lo), Ok(hi)) => do_sweep(t, key, off, w, lo, hi),
+                _ => "bad-op".to_string(),
             },
             ["N", k] => match k.parse::<usize>() {
                 Ok(k) => {
